@@ -298,6 +298,8 @@ def cap_lemma():
     def stub(self, *a, **kw):
         count[0] += 1
         k = count[0]
+        if k > 60000:
+            raise RuntimeError('no iteration cap observed after 60000 evaluations')
         j = (0.3, 0.7) if k % 2 else (0.6, 0.4)
         return (Sym('var', ('J1',), j[0]), Sym('var', ('J2',), j[1]))
     outcome = 'none'
@@ -313,24 +315,14 @@ def cap_lemma():
             outcome = type(e).__name__
     sym.reset()
     if outcome != 'ValueError':
-        return ('(* the solver did not raise ValueError on a never-converging iteration: %s after %d evaluations *)\n'
-                'Lemma br_solver_cap : False.\nProof. Qed.\n\n' % (outcome, count[0])), count[0]
-    return ('(* observed: ValueError after %d driving-force evaluations of a never-converging iteration *)\n'
-            'Lemma br_solver_cap : Nat.eqb (solver_cap) (Z.to_nat %d) = true.\nProof. vm_compute; reflexivity. Qed.\n\n'
-            % (count[0], count[0])), count[0]
+        return Case('solver_cap', None, None, None, raw_stmt='False',
+                    note='no ValueError on a never-converging iteration: %s after %d evaluations' % (outcome, count[0]))
+    return Case('solver_cap', None, None, None, raw_stmt='Nat.eqb solver_cap (Z.to_nat %d) = true' % count[0],
+                note='ValueError after %d driving-force evaluations of a never-converging iteration' % count[0])
 
 
 def main():
-    text, n = cap_lemma()
-    outs = emit_family('solver', IMPORTS, cases(), lambda: list(all_vars().keys()), extra_header='\n' + text)
-    outs.append({'name': 'solver_cap', 'status': 'ok', 'outcome': 'cap=%d' % n, 'pcs': []})
-    import json, os
-    from gen import COQ_GEN
-    rp = os.path.join(COQ_GEN, 'report_solver.json')
-    rep = json.load(open(rp))
-    rep['cases'].append({'name': 'solver_cap', 'status': 'ok', 'outcome': 'cap=%d' % n, 'pcs': []})
-    json.dump(rep, open(rp, 'w'), indent=1, default=str)
-    return outs
+    return emit_family('solver', IMPORTS, cases() + [cap_lemma()], lambda: list(all_vars().keys()))
 
 
 if __name__ == '__main__':
